@@ -142,29 +142,52 @@ def check(ck):
     fv = prog.func(SRV, "validate_request")
     fd = prog.func(SRV, DISP + "._dispatch")
 
-    def adapter_ok(fi, t, server_cfg_pred):
-        """t = Phi{server config, server config.copy()} exactly, both derived from this function's own server config"""
+    def adapter_ok(fi, t, server_cfg_pred, depth=0):
+        """t = Phi{server config, server config.copy()} exactly, both derived from this function's own server config;
+        or a call adapter(request, <server config>) of a package function whose returns have that shape"""
         alts = prov.alts(t)
+        if depth == 0 and len(alts) == 1:
+            a = next(iter(alts))
+            if a[0] == "call" and a[1][0] == "global" and (SRV + "." + a[1][1]) in prog.funcs and len(a[2]) == 2 and server_cfg_pred(a[2][1]) \
+                    and a[2][0][0] in ("param", "elem"):
+                hf = prog.funcs[SRV + "." + a[1][1]]
+                hg = cfg_of(hf)
+                rets = [n for n in hg.live_nodes() if n.kind == "return" and n.ast is not None and n.ast.value is not None]
+                rt = None
+                for rn in rets:
+                    x = prov.origin(hg, rn, rn.ast.value)
+                    rt = x if rt is None else ("phi", frozenset(prov.alts(rt) | prov.alts(x)))
+                if rt is not None and adapter_ok(hf, rt, lambda z: z == ("param", hf.params[1]), 1):
+                    adapter_helpers.add(hf.fq)
+                    return True
+                return False
         plain = [a for a in alts if server_cfg_pred(a)]
         copies = [a for a in alts if a[0] == "call" and a[1][0] == "attr" and a[1][2] == "copy" and server_cfg_pred(a[1][1])]
         return len(plain) >= 1 and len(copies) >= 1 and len(plain) + len(copies) == len(alts)
 
+    all_fault_sites = common.fault_sites(prog)
+    adapter_helpers = set()
     for fi, pred, exempt in (
             (fs, lambda a: q.self_attr(a, "json_config"), None),
             (fv, lambda a: a == ("param", fv.params[1]), "version"),
             (fd, None, None)):
         g = cfg_of(fi)
         dom = dominators(g)
-        sites = q.call_sites(prog, fi, lambda r, c: r == "class:jsonrpc.Fault") + \
-            [(n, c) for (n, c) in q.call_sites(prog, fi, lambda r, c: q.is_func(r, "jsonrpc.dump")) if kwarg(c, "is_response", 4) is not None]
-        for (n, c) in sites:
-            label = "%s: %s config=" % (q.fn(fi), dump(c.func) + "(" + (dump(c.args[0]) if c.args and isinstance(c.args[0], (ast.Constant, ast.UnaryOp)) else "...") + ")")
-            ce = kwarg(c, "config", 3 if dump(c.func).endswith("Fault") else 6)
+        fsites = [st_ for st_ in all_fault_sites if st_.fi.fq == fi.fq]
+        sites = [(st_.node, st_.call, st_) for st_ in fsites] + \
+            [(n, c, None) for (n, c) in q.call_sites(prog, fi, lambda r, c: q.is_func(r, "jsonrpc.dump")) if kwarg(c, "is_response", 4) is not None]
+        for (n, c, fsite) in sites:
+            label = "%s: %s config=" % (q.fn(fi), ("Fault(%s)" % fsite.code()) if fsite is not None else "jsonrpclib.dump(...)")
+            if fsite is not None:
+                t = fsite.origin("config", 3)
+                ce = fsite.expr("config", 3)
+            else:
+                ce = kwarg(c, "config", 6)
+                t = prov.origin(g, n, ce) if ce is not None else None
             if ce is None:
                 ck.bad("C13.4", label, "response constructor without config=: the reply is built with the shared DEFAULT "
                        "configuration, not the form of the request", q.loc(fi, n))
                 continue
-            t = prov.origin(g, n, ce)
             if fi is fv:
                 # exempt: non-object entry, entry without any version marker (answered in the server's form)
                 ex = False
@@ -199,10 +222,14 @@ def check(ck):
                        "%s: %s(..., config)" % (q.fn(fs), call_name(c)), "passes the adapter",
                        "_dispatch is not given the request-specific configuration (%s)" % (prov.show(t) if t else "nothing"),
                        q.loc(fs, n))
-    for fi in (fs, fv):
+    guard_fns = [(fs, fs.params[1]), (fv, fv.params[0])]
+    if adapter_helpers:
+        guard_fns = [(prog.funcs[h], prog.funcs[h].params[0]) for h in sorted(adapter_helpers)] + \
+            [(f_, r_) for (f_, r_) in guard_fns if any(isinstance(x, ast.Call) and isinstance(x.func, ast.Attribute) and x.func.attr == "copy" and not x.args
+                                                       for x in ast.walk(f_.node))]
+    for (fi, req) in guard_fns:
         g = cfg_of(fi)
         dom = dominators(g)
-        req = fi.params[1] if fi is fs else fi.params[0]
         copies = [n for n in g.live_nodes() if n.kind == "stmt" and isinstance(n.ast, ast.Assign)
                   and isinstance(n.ast.value, ast.Call) and isinstance(n.ast.value.func, ast.Attribute)
                   and n.ast.value.func.attr == "copy" and not n.ast.value.args]
